@@ -400,6 +400,15 @@ func writeEvidence(pc *PropConfig, tier string, seed int, res *propResult, wall 
 					trusted = append(trusted, "assumed contract: "+fn.String())
 				}
 			}
+			verified := map[string]bool{}
+			for _, fi := range res.funcs {
+				verified[fi.Name] = true
+			}
+			for fn := range res.vc.usedRepoContracts {
+				if !verified[fn.String()] {
+					trusted = append(trusted, "contract in /repo applied at call sites but NOT verified by this check (assumed here): "+fn.String())
+				}
+			}
 			for k := range res.vc.ifaceCon {
 				trusted = append(trusted, "assumed interface contract: "+k)
 			}
